@@ -10,6 +10,11 @@ pub(crate) fn track_and_groundspeed(
     message: &[u32],
     is_supersonic: bool,
 ) -> (Option<u32>, Option<u32>) {
+    // a velocity field of 0 means "no information available"
+    if range_value(message, 47, 56) == Some(0) || range_value(message, 58, 67) == Some(0) {
+        return (None, None);
+    }
+
     let sp_west = match flag_and_range_value(message, 46, 47, 56) {
         Some((dir_west, speed_west)) => match dir_west {
             1 => -(speed_west as f64 - 1.0),
